@@ -307,10 +307,9 @@ RefSimplify(c, roots) ==
                 map |-> [j \in 1 .. NG(c) |-> IF j \in R THEN st.map[j] ELSE UndefLit]]
 
 ----------------------------------------------------------------------------
-(* Design-level model check (spec/MC_Circuit.cfg): the initial states are ALL
-   circuits with <= MCN inputs (plus the first unknown input), <= 2 gates of
-   <= 2 literals, with two root sets each; `Pick` computes the reference
-   outcome.  Invariants:
+(* Design-level model check (spec/MC_Circuit.cfg): ALL circuits with <= MCN
+   inputs (plus the first unknown input), <= 2 gates of <= 2 literals, with
+   two root sets each; `Pick` computes the reference outcome.  Invariants:
      EvalIsTable     the tabular evaluator used for trace validation agrees
                      with the recursive definition Eval on every evaluable gate
      OutcomeAllowed  the reference outcome satisfies the contract (so the
@@ -328,14 +327,25 @@ MCCircuits == UNION {{[n |-> n, gates |-> gs] : gs \in [1 .. g -> MCGates(n, g)]
 MCRoots(c) == {<<GateLit(1)>>, <<Flip(GateLit(NG(c)), TRUE), GateLit(1)>>}
 
 VARIABLE mcst
-MCStart(c) == {[c |-> c, roots |-> r, out |-> [none |-> TRUE]] : r \in MCRoots(c)}
-MCInit == mcst \in UNION {MCStart(c) : c \in MCCircuits}
-Pick == /\ "none" \in DOMAIN mcst.out
-        /\ mcst' = [mcst EXCEPT !.out = RefSimplify(mcst.c, mcst.roots)]
+(* two phases so that TLC's workers share the work: the initial states fix
+   the first gate, `Pick` adds nothing or one more gate, chooses the roots and
+   computes the reference outcome *)
+MCRefs(g) == {x[2] : x \in {y \in Range(g.ins) : IsGate(y)}}
+MCFirst(n) == {[n |-> n, g1 |-> g] : g \in MCGates(n, 2)}
+MCInit == mcst \in UNION {MCFirst(n) : n \in 0 .. MCN}
+MCDone(c, r) == [c |-> c, roots |-> r, out |-> RefSimplify(c, r)]
+Pick ==
+  /\ "g1" \in DOMAIN mcst
+  /\ \/ /\ 1 \notin MCRefs(mcst.g1)
+        /\ LET c == [n |-> mcst.n, gates |-> <<mcst.g1>>]
+           IN  \E r \in MCRoots(c) : mcst' = MCDone(c, r)
+     \/ \E g2 \in MCGates(mcst.n, 2) :
+          LET c == [n |-> mcst.n, gates |-> <<mcst.g1, g2>>]
+          IN  \E r \in MCRoots(c) : mcst' = MCDone(c, r)
 MCSpec == MCInit /\ [][Pick]_mcst
 
 EvalIsTable ==
-  ("none" \in DOMAIN mcst.out) =>
+  ("out" \in DOMAIN mcst) =>
     LET c == mcst.c
         roots == mcst.roots
         R == Reach(c, roots)
@@ -345,16 +355,16 @@ EvalIsTable ==
         /\ \A j \in DOMAIN m : \A a \in AsgNos(ks) : m[j][a] = Eval(c, GateLit(j), AsgOf(ks, a))
 
 OutcomeAllowed ==
-  ("ok" \in DOMAIN mcst.out) =>
+  ("out" \in DOMAIN mcst) =>
     IF mcst.out.ok THEN OkAllowed(mcst.c, mcst.roots, mcst.out.c, mcst.out.map)
                         /\ ~ReachableUnknownInput(mcst.c, mcst.roots)
     ELSE ErrAllowed(mcst.c, mcst.roots, mcst.out.err)
 
 ErrorWhenRequired ==
-  ("ok" \in DOMAIN mcst.out /\ ErrRequired(mcst.c, mcst.roots)) => ~mcst.out.ok
+  ("out" \in DOMAIN mcst /\ ErrRequired(mcst.c, mcst.roots)) => ~mcst.out.ok
 
 NormalFormIsFixed ==
-  ("ok" \in DOMAIN mcst.out /\ mcst.out.ok) =>
+  ("out" \in DOMAIN mcst /\ mcst.out.ok) =>
     LET nc == mcst.out.c
         nroots == [i \in 1 .. Len(mcst.roots) |-> ApplyMap(mcst.out.map, mcst.roots[i])]
         again == RefSimplify(nc, nroots)
